@@ -12,3 +12,9 @@ func verifUnicodeIsPrint(r rune) bool { return unicode.IsPrint(r) }
 func verifNaN() float64           { return math.NaN() }
 func verifInf() float64           { return math.Inf(1) }
 func verifSignbit(x float64) bool { return math.Signbit(x) }
+
+func verifUnicodeIsSpace(r rune) bool { return unicode.IsSpace(r) }
+
+// verifModelUnsupported: an input outside a model's stated domain. The engine aborts the path as
+// unsupported (never a verdict); natively this cannot be reached through a model.
+func verifModelUnsupported(msg string) { panic("verif model: " + msg) }
